@@ -611,6 +611,16 @@ func c07ReadOnlySweep(payloads map[string]func() (any, func() []byte), name stri
 						before = after
 					case c07Obs(w, 0) != c07Obs(v, 0):
 						out = append(out, [2]string{"readonly-source-copy-differs:" + ty.Name(), fmt.Sprintf("%s: after %s.CopyTo(mutable destination) with a read-only source the destination differs from the source", name, path)})
+					default:
+						// the copy is the destination's own: writing IN PLACE into every primitive slice reachable from it (bytes of
+						// a value, bucket counts, ...) must not show in the read-only original
+						if c07Scribble(w, 0) > 0 {
+							c07ROCount++
+							if after := string(enc()); after != before {
+								out = append(out, [2]string{"copy-of-readonly-source-shares-storage:" + ty.Name(), fmt.Sprintf("%s: %s was copied from a read-only payload into a mutable one; in-place writes into the copy changed the read-only original", name, path)})
+								before = after
+							}
+						}
 					}
 					before2 = string(enc2())
 				}
@@ -700,6 +710,69 @@ func c07ReadOnlySweep(payloads map[string]func() (any, func() []byte), name stri
 	reflect.ValueOf(root).MethodByName("MarkReadOnly").Call(nil)
 	walk(reflect.ValueOf(root), reflect.ValueOf(root2), name, 0)
 	return out
+}
+
+// c07Scribble overwrites, in place (SetAt), every element of every primitive slice reachable from v through reader methods,
+// map entries and slice elements; returns the number of elements written. Accessors of the wrong one-of alternative panic
+// by design and are skipped.
+func c07Scribble(v reflect.Value, depth int) (n int) {
+	if depth > 12 || !v.IsValid() || v.Kind() != reflect.Struct {
+		return 0
+	}
+	defer func() { _ = recover() }()
+	ty := v.Type()
+	if sa, ok := ty.MethodByName("SetAt"); ok && sa.Type.NumIn() == 3 {
+		et := sa.Type.In(2)
+		ln := int(v.MethodByName("Len").Call(nil)[0].Int())
+		for i := 0; i < ln; i++ {
+			nv := reflect.New(et).Elem()
+			switch et.Kind() {
+			case reflect.Uint8, reflect.Uint64, reflect.Uint32:
+				nv.SetUint(0xEE)
+			case reflect.Int, reflect.Int32, reflect.Int64:
+				nv.SetInt(-77)
+			case reflect.Float64:
+				nv.SetFloat(-7.75)
+			case reflect.String:
+				nv.SetString("scribbled")
+			default:
+				return n
+			}
+			v.MethodByName("SetAt").Call([]reflect.Value{reflect.ValueOf(i), nv})
+			n++
+		}
+		return n
+	}
+	if _, ok := ty.MethodByName("Range"); ok && strings.HasSuffix(ty.Name(), "Map") {
+		rm := v.MethodByName("Range")
+		ft := rm.Type().In(0)
+		rm.Call([]reflect.Value{reflect.MakeFunc(ft, func(args []reflect.Value) []reflect.Value {
+			n += c07Scribble(args[1], depth+1)
+			return []reflect.Value{reflect.ValueOf(true)}
+		})})
+		return n
+	}
+	if at, ok := ty.MethodByName("At"); ok && at.Type.NumIn() == 2 {
+		ln := int(v.MethodByName("Len").Call(nil)[0].Int())
+		for i := 0; i < ln; i++ {
+			func() {
+				defer func() { _ = recover() }()
+				n += c07Scribble(v.MethodByName("At").Call([]reflect.Value{reflect.ValueOf(i)})[0], depth+1)
+			}()
+		}
+		return n
+	}
+	for i := 0; i < ty.NumMethod(); i++ {
+		m := ty.Method(i)
+		mt := m.Type
+		if mt.NumIn() == 1 && mt.NumOut() == 1 && mt.Out(0).Kind() == reflect.Struct && strings.Contains(mt.Out(0).PkgPath(), "/pdata/") && mt.Out(0).NumMethod() > 0 && !c07IsMutatorName(m.Name) {
+			func() {
+				defer func() { _ = recover() }()
+				n += c07Scribble(v.Method(i).Call(nil)[0], depth+1)
+			}()
+		}
+	}
+	return n
 }
 
 // c07Perturb gives every map and slice reachable from v one more entry (twin payload of the read-only sweep)
